@@ -37,6 +37,7 @@ SIGS = [
     ([((0, 1), 1), ((1, 0), 1)], [((0, 0), 1), ((1, 1), 1)]),
     ([((1, 1), 1)], [((0, 1), 1), ((1, 0), 1)]),
     ([((0, 0), 2)], [((0, 0), 1), ((2, 0), 1)]),
+    ([((1, 0), 1), ((0, 0), 1)], [((1, 0), 1), ((0, 1), 1), ((0, 0), 1)]),   # types listed (and stored) out of sorted order
 ]
 
 
@@ -48,7 +49,7 @@ def cells(tier, seed):
         "norm": [True, False],
         "pre": [True, False],
         "bias": ["auto", "mean", False],
-        "sig": [0, 1, 2, 3],
+        "sig": [0, 1, 2, 3, 4],
         "torus": [True, False],
     }
     core = pairwise_cover(axes, seed=7)
